@@ -160,6 +160,11 @@ def _real_val(v):
         for i, x in enumerate(rows):
             a[i] = _real_val(x)
         return a
+    if 'it' in v:                       # a non-list iterable: generator or dict view (outside the statement of C09; mirrored only)
+        items = [_real_val(x) for x in v['it']['items']]
+        if v['it']['kind'] == 'values':
+            return {i: x for i, x in enumerate(items)}.values()
+        return (x for x in items)
     if 'z' in v:                        # 0-d ndarray
         if v['z']['obj']:
             a = np.empty((), dtype=object)
@@ -185,6 +190,8 @@ def _mj_val(v):
         return {'k': [[k, _mj_val(x)] for k, x in v['k']]}
     if 's' in v:
         return {'s': 1}
+    if 'it' in v:
+        return {'it': [_mj_val(x) for x in v['it']['items']]}
     if 'oa' in v:
         return {'oa': [_mj_val(x) for x in v['oa']]}
     if 'z' in v:
@@ -204,6 +211,8 @@ def _leaves(v):
         return [y for _, x in v['k'] for y in _leaves(x)]
     if 's' in v:
         return [v]
+    if 'it' in v:
+        return [y for x in v['it']['items'] for y in _leaves(x)]
     if 'oa' in v:
         return [y for x in v['oa'] for y in _leaves(x)]
     if 'z' in v:
@@ -222,6 +231,63 @@ def _has_plain_ndarray(v):
     if 'k' in v:
         return any(_has_plain_ndarray(x) for _, x in v['k'])
     return False
+
+
+def _has_iterable(v):
+    if 'it' in v:
+        return True
+    for key in ('l', 't', 'oa'):
+        if key in v:
+            return any(_has_iterable(x) for x in v[key])
+    if 'k' in v:
+        return any(_has_iterable(x) for _, x in v['k'])
+    return False
+
+
+def _hr_table(cu, symbols):
+    """what the third-party unit-string parser makes of each symbol: {symbol: [[symbol of unit object, factor, dims, exponent]...]}; unparseable: absent"""
+    table = {}
+    for sym in symbols:
+        if sym in table or not isinstance(sym, str):
+            continue
+        try:
+            items = list(cu.pq.Quantity(0, sym).dimensionality.items())
+        except LookupError:
+            continue
+        ent = []
+        for po, pe in items:
+            pf, pd = _book_of_real_unit(1 * po)
+            ent.append([po.symbol, rat_json(F(pf)), list(pd), int(pe)])
+        table[sym] = ent
+    return table
+
+
+def _cval_real(v):
+    if v is None:
+        return None
+    if 'str' in v:
+        return v['str']
+    if 'l' in v:
+        return [_cval_real(x) for x in v['l']]
+    if 't' in v:
+        return tuple(_cval_real(x) for x in v['t'])
+    if 'k' in v:
+        return {k: _cval_real(x) for k, x in v['k']}
+    return _real(v)
+
+
+def _cval_mj(v):
+    if v is None:
+        return None
+    if 'str' in v:
+        return {'s': v['str']}
+    if 'l' in v:
+        return {'l': [_cval_mj(x) for x in v['l']]}
+    if 't' in v:
+        return {'t': [_cval_mj(x) for x in v['t']]}
+    if 'k' in v:
+        return {'k': [[k, _cval_mj(x)] for k, x in v['k']]}
+    return _mj(v)
 
 
 def _has_zerod(v):
@@ -489,7 +555,12 @@ class C09(Property):
         'get_physical_dimensionality / default_unit_in_registry / unitless_in_registry on dicts: the code only supports unitless dicts (theorem: {} / AttributeError); nested containers: not modelled',
         'unit_of on containers (unitOf_list is a lemma, not a Props theorem); Backend/patched_numpy with CONTAINER arguments (scalar arguments have theorems); uncertainty(), '
         'latex/unicode/html_of_unit, format_string, fold_constants, simplified(): not modelled',
-        'compare_equality between a quantity and a plain number, and on containers/None: mirrored for scalars (quirk witness), no specification theorem',
+        'compare_equality is not among the helpers the statement lists: two quantities / two numbers have a theorem, quantity vs plain number a quirk witness; None, str, lists, '
+        'tuples and dicts are mirrored by the model (compareEqualityC; dicts are compared by their keys only) and compared by the correspondence, no oracle claim, no theorem',
+        'to_unitless of generators / dict views (outside "lists, arrays and dictionaries"): mirrored (Val.iterable: refused for every dimensional target, element-wise for a '
+        'dimensionless one; lemma toUnitless_iterable), correspondence only, no oracle claim',
+        'from_human_readable of hand-edited entries whose symbol carries an exponent (m**2, 1/s): the exponent is dropped (mirrored, correspondence only); accept/refuse has a theorem',
+        'Backend: a non-callable attribute (be.pi) is handed through unchanged — oracle only (no unit logic to model)',
         'allclose with atol when a plain number is involved, allclose on lists/arrays (mirrored by the model, correspondence + oracle), UncertainQuantity arguments',
         'polyval with a list/array x (element-wise use of the scalar theorem; correspondence + oracle); polyfit: scaling covariance of np.polyfit itself is a hypothesis of '
         'helpers_polyfit_unit_independent (oracle compares with the fit of the SI magnitudes)',
@@ -517,7 +588,7 @@ class C09(Property):
             cases.append({'op': 'get_derived_unit', 'reg': [{'mag': 1.0, 'u': [[BY_DIM[i][0], 1]]} for i in range(7)], 'key': key})
             cases.append({'op': 'get_derived_unit', 'reg': _registry(rng), 'key': key})
         cases.append({'op': 'get_derived_unit', 'reg': None, 'key': 'energy'})
-        gens = [(0.30, self._g_scalar), (0.10, self._g_container), (0.07, self._g_small), (0.02, self._g_ndarray), (0.05, self._g_objarray), (0.12, self._g_registry),
+        gens = [(0.30, self._g_scalar), (0.10, self._g_container), (0.07, self._g_small), (0.02, self._g_ndarray), (0.05, self._g_objarray), (0.03, self._g_round7), (0.02, self._g_allclose_arr), (0.12, self._g_registry),
                 (0.05, self._g_derived), (0.05, self._g_human), (0.04, self._g_compare), (0.06, self._g_allclose),
                 (0.05, self._g_linspace), (0.03, self._g_logspace), (0.03, self._g_concat), (0.02, self._g_tile),
                 (0.03, self._g_polyval), (0.02, self._g_polyfit), (0.03, self._g_backend)]
@@ -588,6 +659,123 @@ class C09(Property):
         u = rng.choice([{'num': 1}, None, {'mag': 1.0, 'u': []}, {'mag': 1.0, 'u': [['km', 1], ['m', -1]]}, {'mag': 1.0, 'u': [['cm', 1], ['m', -1]]},
                         {'mag': 2.0, 'u': [['km', 1], ['m', -1]]}, {'mag': 1.0, 'u': [['s', 1]]}, {'mag': 1.0, 'u': [['mmol', 1], ['mol', -1]]}])
         return {'op': 'to_unitless', 'v': v, 'u': u}
+
+    def _g_round7(self, rng, tier):
+        """branches found unexecuted by tools/anchor_coverage.py: unit_of(simplified=True), rescale of a plain number onto a non-unit (AttributeError),
+        non-list iterables (TypeError fallback of to_unitless), from_human_readable refusals / None registries, compare_equality on None/containers"""
+        r = rng.random()
+        q = _q(rng)
+        if r < 0.22:
+            v = rng.choice([q, {'l': [q, _compat_q(rng, q)]}, {'k': [['a', q], ['b', _compat_q(rng, q)]]}, {'num': 3}, {'l': []}])
+            return {'op': 'unit_of', 'v': v, 'simplified': rng.random() < 0.85}
+        if r < 0.34:
+            u = rng.choice([{'mag': 2.0, 'u': [['m', 1]]}, {'mag': 1000.0, 'u': []}, {'mag': 0.5, 'u': [['km', 1], ['m', -1]]}, {'num': 2}])
+            return {'op': 'rescale', 'v': {'num': rng.choice([3, 3.5, 0])}, 'u': u}
+        if r < 0.52:
+            ratio_units = [[['cm', 1], ['m', -1]], [['km', 1], ['m', -1]], [['mmol', 1], ['mol', -1]], []]
+            dimless = rng.random() < 0.7
+            items = [({'num': rng.choice([2, 0.5])} if rng.random() < 0.3 else {'mag': _mag(rng), 'u': rng.choice(ratio_units)}) if dimless
+                     else _compat_q(rng, q) for _ in range(rng.randint(0, 3))]
+            if rng.random() < 0.15 and items and 'u' in items[-1]:
+                items[-1] = dict(items[-1], u=items[-1]['u'] + [['s', 1]])
+            v = {'it': {'kind': rng.choice(['gen', 'values']), 'items': items}}
+            if dimless:
+                u = rng.choice([None, {'num': 1}, {'mag': 1.0, 'u': []}, {'mag': rng.choice([1.0, 2.0]), 'u': rng.choice(ratio_units[:3])}, {'mag': 1.0, 'u': [['s', 1]]}])
+            else:
+                u = _target(rng, q, rng.random() < 0.7)
+            return {'op': 'to_unitless', 'v': v, 'u': u}
+        if r < 0.72:
+            if rng.random() < 0.15:
+                return rng.choice([{'op': 'to_human'}, {'op': 'from_human', 'entries': None}])
+            cu = _chempy()
+            entries, kinds, names = [], [], []
+            for k in KEYS:
+                nm = rng.choice(HR_UNITS[k])
+                entries.append([1.0 if rng.random() < 0.6 else rng.choice([1e-3, 2.5, 10.0]), getattr(cu.default_units, nm).symbol])
+                kinds.append('standard')
+                names.append(nm)
+            rr = rng.random()
+            i = rng.randrange(7)
+            if rr < 0.25:
+                entries[i][1], kinds[i] = rng.choice(['m/s', 'N*m', 'dimensionless', 'kg*m**2']), 'compound'
+            elif rr < 0.45:
+                entries[i][1], kinds[i] = rng.choice(['foo', 'µm', 'xyz', 'metr']), 'unknown'
+            elif rr < 0.55:
+                entries[i][1], kinds[i] = rng.choice(['m**2', '1/s', 'kg**-1']), 'power'
+            elif rr < 0.65:
+                entries[i], kinds[i] = [1, 1], 'one'
+            return {'op': 'from_human', 'entries': entries, 'kinds': kinds, 'names': names}
+        if r < 0.76:
+            return {'op': 'backend_attr'}
+
+        def cv(depth=1):
+            t = rng.random()
+            if t < 0.15:
+                return None
+            if t < 0.25:
+                return {'str': rng.choice(['a', 'ab', ''])}
+            if t < 0.6 or depth == 0:
+                return rng.choice([{'mag': 1.0, 'u': [['km', 1]]}, {'mag': 1000.0, 'u': [['m', 1]]}, {'mag': 2.0, 'u': [['s', 1]]}, {'num': 3}, {'num': 1000}])
+            if t < 0.8:
+                return {rng.choice(['l', 't']): [cv(depth - 1) for _ in range(rng.randint(0, 2))]}
+            return {'k': [[kk, cv(depth - 1)] for kk in rng.sample(['a', 'b', 'c'], rng.randint(0, 2))]}
+        def kind(x):
+            return 'none' if x is None else 'str' if 'str' in x else 'seq' if ('l' in x or 't' in x) else 'dict' if 'k' in x else 'atom'
+        # a scalar quantity/number/str against a sequence goes through NumPy broadcasting inside `a + b`: not mirrored (outside the statement anyway)
+        allowed = {'none': {'none', 'atom', 'str', 'seq', 'dict'}, 'atom': {'atom', 'none', 'str'}, 'str': {'str', 'none', 'atom'},
+                   'seq': {'seq', 'dict', 'none'}, 'dict': {'dict', 'seq', 'none'}}
+
+        def flat_ok(x):
+            """inside sequences only pair like with like (element pairs are compared recursively / by Python ==)"""
+            return True
+        a = cv()
+        b = a if rng.random() < 0.3 else cv()
+        for _ in range(20):
+            if kind(b) in allowed[kind(a)] and self._cmp_shapes_ok(a, b, kind, allowed):
+                break
+            b = cv()
+        else:
+            b = a
+        return {'op': 'compare_equality_c', 'a': a, 'b': b}
+
+    def _cmp_shapes_ok(self, a, b, kind, allowed):
+        if kind(b) not in allowed[kind(a)]:
+            return False
+        if kind(a) == 'seq' and kind(b) == 'seq':
+            la, lb = a.get('l', a.get('t')), b.get('l', b.get('t'))
+            return all(self._cmp_shapes_ok(x, y, kind, allowed) for x, y in zip(la, lb))
+        if kind(a) == 'dict' and kind(b) == 'dict':
+            return all(self._cmp_shapes_ok(x, y, kind, allowed) for (_, x), (_, y) in zip(a['k'], b['k']))
+        return True
+
+    def _g_allclose_arr(self, rng, tier):
+        a0 = _q(rng)
+        if a0['mag'] == 0:
+            a0['mag'] = 1.0
+        rtol = rng.choice([1e-8, 1e-3])
+
+        def near(x, rel):
+            y = _compat_q(rng, x)
+            y['mag'] = float(_si(x) * (1 + F(rel)) / _book(y)[1])
+            return y
+        if rng.random() < 0.3:                           # UncertainQuantity arguments
+            b = near(a0, rng.choice([1e-3, 1e3]) * rtol) if rng.random() < 0.85 else _q(rng)
+            c = {'op': 'allclose_u', 'a': a0, 'b': b, 'rtol': rtol, 'atol': None, 'a_unc': None, 'b_unc': None}
+            c[rng.choice(['a_unc', 'b_unc'])] = rng.choice([0.1, 1e-6, 5.0])
+            return c
+        k = rng.randint(1, 3)
+        a_scalar = rng.random() < 0.35
+        la = [a0] if a_scalar else [a0] + [_compat_q(rng, a0) for _ in range(k - 1)]
+        base = [a0] * k if a_scalar else la
+        lb = [near(x, rng.choice([1e-3, 1e-3, 1e3]) * rtol) if _si(x) != 0 else x for x in base]
+        if rng.random() < 0.1:
+            lb = [dict(y, u=y['u'] + [['s', 1]]) for y in lb]           # another dimension: False, no exception
+        atol = None
+        if rng.random() < 0.3:
+            t = _compat_q(rng, a0)
+            t['mag'] = float(abs(_si(a0)) * F(rtol) * rng.choice([1000, F(1, 1000)]) / _book(t)[1])
+            atol = t if rng.random() < 0.75 else _q(rng)
+        return {'op': 'allclose_arrays', 'a_scalar': a_scalar, 'a': la, 'b': lb, 'rtol': rtol, 'atol': atol}
 
     def _g_objarray(self, rng, tier):
         """container TYPE x target: object-dtype arrays (1-D, 2-D, 0-d) of quantities / mixed quantities and plain numbers, and lists/tuples
@@ -883,6 +1071,25 @@ class C09(Property):
             m['u'] = None if c['u'] is None else _mj(c['u'])
         elif op in ('unit_of', 'uniform', 'is_unitless'):
             m['v'] = _mj_val(c['v'])
+            if op == 'unit_of' and 'simplified' in c:
+                m['simplified'] = bool(c['simplified'])
+        elif op == 'backend_attr':
+            return None                     # no unit logic to model: oracle-only
+        elif op == 'to_human':
+            m['entries'] = None
+        elif op == 'from_human':
+            m['entries'] = None if c['entries'] is None else [[rat_json(F(f)), s_] for f, s_ in c['entries']]
+            m['table'] = [[k, v] for k, v in _hr_table(_chempy(), [] if c['entries'] is None else [s_ for _, s_ in c['entries']]).items()]
+        elif op == 'allclose_arrays':
+            m.update(a_scalar=bool(c['a_scalar']), a=[_mj(x) for x in c['a']], b=[_mj(x) for x in c['b']], rtol=rat_json(F(c['rtol'])),
+                     atol=None if c['atol'] is None else _mj(c['atol']))
+        elif op == 'allclose_u':
+            m.update(a=_mj(c['a']), b=_mj(c['b']), rtol=rat_json(F(c['rtol'])), atol=None)
+            for k in ('a', 'b'):
+                if c.get(k + '_unc') is not None:
+                    m[k + '_unc'] = rat_json(F(c[k + '_unc']))
+        elif op == 'compare_equality_c':
+            m['a'], m['b'] = _cval_mj(c['a']), _cval_mj(c['b'])
         elif op == 'rescale':
             m['v'], m['u'] = _mj(c['v']), _mj(c['u'])
         elif op in ('get_physical_dimensionality', 'default_unit_in_registry', 'unitless_in_registry'):
@@ -977,7 +1184,34 @@ class C09(Property):
         if op == 'to_unitless':
             return J_(_res(_call_to_unitless(cu, c)))
         if op == 'unit_of':
+            if 'simplified' in c:
+                return J_(_pv(cu.unit_of(_real_val(c['v']), c['simplified'])))
             return J_(_pv(cu.unit_of(_real_val(c['v']))))
+        if op == 'to_human':
+            return str(cu.unit_registry_to_human_readable(None))
+        if op == 'from_human':
+            if c['entries'] is None:
+                return str(cu.unit_registry_from_human_readable(None))
+            r = cu.unit_registry_from_human_readable({k: (f, s_) for k, (f, s_) in zip(KEYS, c['entries'])})
+            out = []
+            for k in KEYS:
+                x = r[k]
+                if hasattr(x, 'dimensionality'):
+                    dimy = []
+                    for uo, e in x.dimensionality.items():
+                        f, d = _book_of_real_unit(1 * uo)
+                        dimy.append([uo.symbol, _jf(f), list(d), int(e)])
+                    out.append({'m': _jf(x.magnitude), 'dimy': dimy})
+                else:
+                    out.append({'n': _jf(x)})
+            return J_(out)
+        if op == 'allclose_arrays':
+            a = self._qarray(c['a'])[0] if c['a_scalar'] else self._qarray(c['a'])
+            return str(bool(cu.allclose(a, self._qarray(c['b']), rtol=c['rtol'], atol=None if c['atol'] is None else _real(c['atol']))))
+        if op == 'allclose_u':
+            return str(bool(cu.allclose(self._unc(cu, c, 'a'), self._unc(cu, c, 'b'), rtol=c['rtol'])))
+        if op == 'compare_equality_c':
+            return str(bool(cu.compare_equality(_cval_real(c['a']), _cval_real(c['b']))))
         if op == 'rescale':
             return J_(_pv(cu.rescale(_real(c['v']), _real(c['u']))))
         if op == 'is_unitless':
@@ -1047,6 +1281,18 @@ class C09(Property):
             v = getattr(cu, c['name'])
             return '[' + ','.join(str(int(v.get(k, 0))) for k in KEYS) + ']'
         return '!unknown-op'
+
+    def _qarray(self, qs):
+        """a `quantities` ARRAY (one unit, the first element's) holding the given quantities"""
+        import numpy as np
+        f0 = _book(qs[0])[1]
+        unit = _real({'mag': 1.0, 'u': qs[0]['u']})
+        return np.array([float(_si(q) / f0) for q in qs]) * unit
+
+    def _unc(self, cu, c, k):
+        if c.get(k + '_unc') is None:
+            return _real(c[k])
+        return cu.pq.UncertainQuantity(c[k]['mag'], _real({'mag': 1.0, 'u': c[k]['u']}), c[k + '_unc'])
 
     def same(self, m, io, mo):
         c = m['_c']
@@ -1140,6 +1386,8 @@ class C09(Property):
             ub = (F(1), F(1), (0,) * 7) if u is None else _book(u)
             bad = [x for x in leaves if 's' in x or _book(x)[2] != ub[2]]
             call = lambda: _call_to_unitless(cu, c)
+            if _has_iterable(c['v']):
+                return None      # generators / dict views are outside the statement ("lists, arrays and dictionaries"); mirrored by the model only
             if bad:
                 return self._raises(call)
             try:
@@ -1191,10 +1439,49 @@ class C09(Property):
             got = bool(cu.is_unitless(_real_val(c['v'])))
             return None if got == want else 'is_unitless = %r, expected %r' % (got, want)
 
+        if op == 'backend_attr':
+            import math as _m
+            be = cu.Backend('math')
+            return None if (be.pi == _m.pi and be.e == _m.e and not callable(be.pi)) else 'Backend does not hand a non-callable attribute through'
+        if op == 'to_human':
+            return None if cu.unit_registry_to_human_readable(None) is None else 'to_human_readable(None) is not None'
+        if op == 'from_human':
+            if c['entries'] is None:
+                return None if cu.unit_registry_from_human_readable(None) is None else 'from_human_readable(None) is not None'
+            call = lambda: cu.unit_registry_from_human_readable({k: (f, s_) for k, (f, s_) in zip(KEYS, c['entries'])})
+            kinds = c['kinds']
+            if 'unknown' in kinds:
+                return self._raises(call, (LookupError,)) if kinds.index('unknown') == min(i for i, k in enumerate(kinds) if k in ('unknown', 'compound')) else self._raises(call, (TypeError, LookupError))
+            if 'compound' in kinds:
+                return self._raises(call, (TypeError,))
+            if 'power' in kinds:
+                return None      # hand-edited entries with exponents are outside "registry of standard prefixed units" (exponent dropped; noted)
+            r = call()
+            for k, (f, s_), nm in zip(KEYS, c['entries'], c['names']):
+                if s_ == 1:
+                    if not (r[k] == f and not hasattr(r[k], 'dimensionality')):
+                        return 'from_human_readable((%r, 1)) = %r' % (f, r[k])
+                    continue
+                uf, ud = UNITS()[nm]
+                x = 1 * r[k]
+                if _book_of_real_unit(x)[1] != ud or not ok(si_of_real(x), F(f) * uf):
+                    return 'from_human_readable(%r) = %r, expected %r x %s' % ((f, s_), r[k], f, nm)
+            return None
+        if op == 'compare_equality_c':
+            return None          # compare_equality is not among the helpers the statement lists; mirrored by the model only
         if op == 'unit_of':
             lv = _leaves(c['v'])
             if not lv:
                 return self._raises(lambda: cu.unit_of(_real_val(c['v'])), (IndexError,))
+            if c.get('simplified'):
+                r = cu.unit_of(_real_val(c['v']), True)
+                m, f, d = _book(lv[0])
+                if 'num' in lv[0]:
+                    return None if r == 1 and not hasattr(r, 'dimensionality') else 'unit_of(number, True) = %r' % (r,)
+                bf, bd = _book_of_real_unit(r)
+                if not (bd == d and ok(si_of_real(r), f) and bf == 1 and ok(r.magnitude, f)):
+                    return 'unit_of(x, simplified=True) = %r: expected %r in SI base units' % (r, float(f))
+                return None
             r = cu.unit_of(_real_val(c['v']))
             m, f, d = _book(lv[0])
             if 'num' in lv[0]:
@@ -1305,11 +1592,19 @@ class C09(Property):
             want = _si(a) == _si(b)
             return None if got == want else 'compare_equality = %r, physical equality = %r' % (got, want)
 
-        if op in ('allclose', 'allclose_list'):
-            la = c['a'] if op == 'allclose_list' else [c['a']]
-            lb = c['b'] if op == 'allclose_list' else [c['b']]
-            ra, rb = ([_real(x) for x in la], [_real(x) for x in lb]) if op == 'allclose_list' else (_real(la[0]), _real(lb[0]))
-            atol = c['atol']
+        if op in ('allclose', 'allclose_list', 'allclose_arrays', 'allclose_u'):
+            la = c['a'] if op in ('allclose_list', 'allclose_arrays') else [c['a']]
+            lb = c['b'] if op in ('allclose_list', 'allclose_arrays') else [c['b']]
+            atol = c.get('atol')
+            if op == 'allclose_arrays':
+                if c['a_scalar']:
+                    la = [la[0]] * len(lb)
+                ra = self._qarray(c['a'])[0] if c['a_scalar'] else self._qarray(c['a'])
+                rb = self._qarray(c['b'])
+            elif op == 'allclose_u':
+                ra, rb = self._unc(cu, c, 'a'), self._unc(cu, c, 'b')
+            else:
+                ra, rb = ([_real(x) for x in la], [_real(x) for x in lb]) if op == 'allclose_list' else (_real(la[0]), _real(lb[0]))
             call = lambda: cu.allclose(ra, rb, rtol=c['rtol'], atol=None if atol is None else _real(atol))
             if len(la) != len(lb):
                 return None if call() is False else 'allclose of lists of different length is not False'
